@@ -47,15 +47,18 @@ def run(ctx):
     if not (pruned_valid and needs_kept and needs_drop and any(not c["rej"] for c in allc)):
         raise vlib.ToolError("vacuous case set")
 
-    # 2. Sanity: the in-place application of the code as found must be rejected by TLC ...
-    dev = ctx.tlc("MCCob", "MCCob_dev.cfg", workers=2, timeout=300, coverage=False, count=False,
-                  label="sanity: in-place application (Atomic = FALSE) must violate the theorems")
-    if dev.violated != "TheoremsHold":
-        raise vlib.ToolError("sanity run: the non-atomic model was not rejected by TLC")
-    det = ctx.tlc("MCCob", "MCCob_det_dev.cfg", workers=2, timeout=300, coverage=False, count=False,
-                  label="sanity: leaving detached changes in the graph (DropDetached = FALSE, the code as found) must violate the theorems")
-    if det.violated != "TheoremsHold":
-        raise vlib.ToolError("sanity run: the model that keeps detached changes was not rejected by TLC")
+    # 2. Sanity (thorough; the soft variant below guards the quick tier against vacuity): the
+    #    in-place application of the code as found must be rejected by TLC, and so must the
+    #    evaluation that leaves detached changes in the graph.
+    if thorough:
+        dev = ctx.tlc("MCCob", "MCCob_dev.cfg", workers=2, timeout=300, coverage=False, count=False,
+                      label="sanity: in-place application (Atomic = FALSE) must violate the theorems")
+        if dev.violated != "TheoremsHold":
+            raise vlib.ToolError("sanity run: the non-atomic model was not rejected by TLC")
+        det = ctx.tlc("MCCob", "MCCob_det_dev.cfg", workers=2, timeout=300, coverage=False, count=False,
+                      label="sanity: leaving detached changes in the graph (DropDetached = FALSE, the code as found) must violate the theorems")
+        if det.violated != "TheoremsHold":
+            raise vlib.ToolError("sanity run: the model that keeps detached changes was not rejected by TLC")
     # ... and so is the Identity::op leniency towards concurrent changes (open finding, see 5.)
     soft = ctx.tlc("MCCob", "MCCob_soft.cfg", workers=2, timeout=300, coverage=False, count=False,
                    label="identity objects: UnexpectedState ignored when a concurrent change exists -- TLC finds the C06 counterexample")
